@@ -56,8 +56,9 @@ TraceNext ==
             /\ nbad' = IF verdict' = "bad" THEN nbad + 1 ELSE nbad
 TraceSpec == TraceInit /\ [][TraceNext]_tvars
 
-\* always TRUE; lists the records judged bad / known (line number of the record in the trace)
-Report == /\ (verdict = "bad") => PrintT(<<"BAD", l - 1>>)
+\* always TRUE; lists the records judged bad / known (line number of the record in the trace; for
+\* a bad one also the abstract observation that was expected)
+Report == /\ (verdict = "bad") => PrintT(<<"BAD", l - 1, obs>>)      \* obs = the abstract observation
           /\ (verdict = "known") => PrintT(<<"KNOWN", l - 1>>)
 \* the verdict: no operation of any executed sequence printed anything but the abstract result
 Conforms == (l > N) => nbad = 0
